@@ -723,3 +723,161 @@ func genHash(r *rng, n int, emit func(string)) {
 		emit(fmt.Sprintf("hmac %d %s %s", r.intn(3), hx(genKey(r)), hx(r.bytes(r.intn(400)))))
 	}
 }
+
+// ---------------- C17 / C08 ----------------
+func init() {
+	streams["c17"] = genC17
+	streams["c08"] = genC08
+}
+
+func decString(r *rng) string {
+	switch r.intn(8) {
+	case 0:
+		return fmt.Sprintf("%d", pick(r, boundaryCounters))
+	case 1:
+		return strings.Repeat("0", r.intn(30)) + fmt.Sprintf("%d", r.next()>>uint(r.intn(64)))
+	case 2: // near 2^64
+		b := new(big.Int).Lsh(big.NewInt(1), 64)
+		b.Add(b, big.NewInt(int64(r.intn(5))-2))
+		return b.String()
+	case 3:
+		return pick(r, []string{"", "+", "-", "+5", "-5", "-0", "+0", " 5", "5 ", "1_000", "0x10", "1e3", "١٢٣", "12a", "a", "00", "0"})
+	case 4:
+		n := r.intn(300)
+		b := make([]byte, n)
+		for i := range b {
+			b[i] = byte('0' + r.intn(10))
+		}
+		return string(b)
+	case 5:
+		b := r.bytes(r.intn(10))
+		return string(b)
+	default:
+		n := 1 + r.intn(64)
+		b := make([]byte, n)
+		for i := range b {
+			b[i] = byte('0' + r.intn(10))
+		}
+		return string(b)
+	}
+}
+
+func hexString(r *rng, maxLen int) string {
+	n := r.intn(maxLen + 1)
+	const hexd = "0123456789abcdefABCDEF"
+	b := make([]byte, n)
+	for i := range b {
+		b[i] = hexd[r.intn(len(hexd))]
+	}
+	if r.chance(1, 8) && n > 0 {
+		b[r.intn(n)] = pick(r, []byte{'g', 'G', ' ', 'x', '-', 0xff})
+	}
+	return string(b)
+}
+
+func genC17(r *rng, n int, emit func(string)) {
+	for _, v := range boundaryCounters {
+		emit(fmt.Sprintf("to8 %d", v))
+		emit("pdec8a " + hxs(fmt.Sprintf("%d", v)))
+	}
+	for w := -1; w <= 40; w++ {
+		emit(fmt.Sprintf("lpad %s %d", hxs(hexString(r, 20)), w))
+	}
+	for l := 0; l <= 40; l++ {
+		s := hexString(r, 0)
+		for len(s) < l {
+			s += string("0123456789abcdef"[r.intn(16)])
+		}
+		emit("phexts " + hxs(s))
+	}
+	for i := 0; i < n; i++ {
+		switch r.intn(7) {
+		case 0:
+			emit(fmt.Sprintf("to8 %d", genCounter(r)))
+		case 1:
+			emit(pick(r, []string{"pdec8a ", "pdec8b "}) + hxs(decString(r)))
+		case 2:
+			emit(fmt.Sprintf("lpad %s %d", hxs(hexString(r, 300)), pick(r, []int{0, 1, 2, 16, 40, 256, 300, 1000, r.intn(400)})))
+		case 3:
+			emit("phexts " + hxs(hexString(r, 24)))
+		case 4:
+			emit("pchal " + hxs(decString(r)))
+		case 5:
+			f := func() string {
+				if r.chance(1, 3) {
+					return ""
+				}
+				s := hexString(r, 40)
+				if len(s)%2 == 1 && r.chance(3, 4) {
+					s += "0"
+				}
+				return s
+			}
+			emit(fmt.Sprintf("hexin %s %s %s %s %s", hxs(f()), hxs(f()), hxs(f()), hxs(f()), hxs(f())))
+		default: // end to end: a numeric question through the helper, then OCRA with a numeric-challenge suite
+			q := decString(r)
+			emit("pchal " + hxs(q))
+		}
+	}
+}
+
+func genC08(r *rng, n int, emit func(string)) {
+	for l := 0; l <= 70; l++ {
+		emit("b32enc " + hx(r.bytes(l)))
+	}
+	for i := 0; i < n; i++ {
+		k := 1 + r.intn(8)
+		algos := make([]string, k)
+		for j := range algos {
+			a := r.intn(3)
+			if r.chance(1, 8) {
+				a = pick(r, []int{3, 4, 255})
+			}
+			algos[j] = fmt.Sprintf("%d", a)
+		}
+		stream := r.bytes(64*k + 8)
+		switch r.intn(6) {
+		case 0:
+			for j := range stream {
+				stream[j] = 0
+			}
+		case 1:
+			for j := range stream {
+				stream[j] = 0xff
+			}
+		}
+		emit(fmt.Sprintf("rand %s %s", hx(stream), strings.Join(algos, ",")))
+		if i%10 == 0 {
+			emit(fmt.Sprintf("randconc %s %d %d", hx(r.bytes(4096)), 1+r.intn(16), 1+r.intn(6)))
+		}
+		if i%3 == 0 {
+			emit("b32enc " + hx(r.bytes(pick(r, []int{20, 32, 64}))))
+		}
+	}
+}
+
+// ---------------- C13 ----------------
+func init() { streams["c13"] = genC13 }
+
+func genC13(r *rng, n int, emit func(string)) {
+	both := func(s string) {
+		emit(s)
+		emit("scan " + s)
+	}
+	genC03(r, n/3, both)
+	genC04(r, n/3, both)
+	genC06(r, n/3, both)
+	// failing calls of the generating operations with long secrets
+	for i := 0; i < n/3; i++ {
+		s, _ := genSecret(r)
+		switch r.intn(3) {
+		case 0:
+			both(fmt.Sprintf("ghotp %s %d %s", hxs(s), genCounter(r), fmtParam(genParam(r, 10))))
+		case 1:
+			both(fmt.Sprintf("gtotp %s %s %s", hxs(s), genTime(r, genUnix(r, 30)), fmtParam(genParam(r, 10))))
+		default:
+			c := genSuite(r, r.chance(1, 2))
+			both(fmt.Sprintf("gocra %s %s %s", hxs(s), fmtSuite(c), fmtInput(genInput(r, c, r.chance(1, 2)))))
+		}
+	}
+}
